@@ -8,8 +8,10 @@ import (
 	"io"
 	"runtime"
 	"strings"
+	"sync/atomic"
 	"testing"
 	"testing/synctest"
+	"time"
 
 	lz4 "github.com/pierrec/lz4/v4"
 
@@ -755,8 +757,16 @@ type Prep struct {
 	Base   [][][]byte // the unmutated, uncut stored bytes
 }
 
+// Watchdog state: the worker's wall-clock watchdog (for spins that touch no
+// hook) measures the time since the last execution started.
+var watchdogRun atomic.Int64
+var watchdogBeat atomic.Int64
+
 // Execute runs one concrete plan (no enumeration) in a fresh bubble.
 func (e *Executor) Execute(p *plan.Plan) *Outcome {
+	if watchdogBeat.Load() != 0 {
+		watchdogBeat.Store(time.Now().UnixNano())
+	}
 	out := &Outcome{Probes: &Probes{}}
 	races0 := raceErrors()
 	if p.Procs > 0 {
